@@ -140,6 +140,66 @@ def run_population(pop, dt):
     return viol, ncmp
 
 
+def run_pair(pop1, pop2):
+    """two scenarios of one manager registered from a model that brings its own DataCollector: each scenario's numbers are
+    those of its own population, whether the scenarios are requested together or one after the other"""
+    global _bptk
+    if _bptk is None:
+        _bptk = core.new_bptk()
+    b = _bptk
+    viol = []
+    ncmp = 0
+    for mode in ("together", "one-by-one"):
+        _n[0] += 1
+        sm = "sp%d" % _n[0]
+        base = StatModel(name="c13", scheduler=SimultaneousScheduler(), data_collector=DataCollector())
+
+        def agents(n):
+            return [{"name": "a", "count": n, "properties": {"kind": {"type": "String", "value": "a"}, "x": {"type": "Integer", "value": 0}, "y": {"type": "Double", "value": 0.0}}},
+                    {"name": "b", "count": 1, "properties": {"kind": {"type": "String", "value": "b"}, "x": {"type": "Integer", "value": 0}}}]
+        try:
+            b.register_scenario_manager({sm: {"type": "abm", "model": base, "scenarios": {
+                "p": {"runspecs": {"starttime": 0, "stoptime": 2, "dt": 1}, "properties": {}, "agents": agents(len(pop1))},
+                "q": {"runspecs": {"starttime": 0, "stoptime": 2, "dt": 1}, "properties": {}, "agents": agents(len(pop2))}}}})
+            scs = {"p": b.get_scenario(sm, "p"), "q": b.get_scenario(sm, "q")}
+            scs["p"].plan, scs["q"].plan = list(pop1), list(pop2)
+            calls = [["p", "q"]] if mode == "together" else [["p"], ["q"]]
+            frames = {}
+            for names in calls:
+                df = b.run_scenarios(scenarios=list(names), scenario_managers=[sm], agents=["a"], agent_states=["s1", "s2", "s3"],
+                                     agent_properties=["x"], agent_property_types=["total", "max"], return_format="df")
+                for nme in names:
+                    frames[nme] = df
+            for nme, sc in scs.items():
+                want = brute(sc.snap)
+                if not want:
+                    viol.append(("pair/%s/not-simulated" % mode, "scenario %s produced no steps" % nme))
+                    continue
+                v = cmp_stats(sc.statistics(), want)
+                ncmp += 1
+                if v:
+                    viol.append(("pair/%s/statistics/%s" % (mode, v[0]), "scenario %s: %s" % (nme, v[1])))
+                    continue
+                df = frames[nme]
+                for state in ("s1", "s2", "s3"):
+                    for agg in ("total", "max"):
+                        col = "%s_%s_a_%s_x_%s" % (sm, nme, state, agg)
+                        if df is None or col not in getattr(df, "columns", []):
+                            viol.append(("pair/%s/column-missing" % mode, col))
+                            break
+                        for t in sorted(want):
+                            ncmp += 1
+                            if not core.close(df[col][t], want_value(want, t, "a", state, "x", agg)):
+                                viol.append(("pair/%s/value" % mode, "%s at t=%r: %r want %r" % (col, t, df[col][t], want_value(want, t, "a", state, "x", agg))))
+                                break
+        except Exception as e:
+            import traceback
+            viol.append(("pair/%s/raises/%s" % (mode, type(e).__name__), traceback.format_exc()[-400:]))
+        finally:
+            b.scenario_manager_factory.scenario_managers.pop(sm, None)
+    return viol, ncmp
+
+
 def cmp_stats(got, want):
     gt = [float(t) for t in got.keys()]
     wt = sorted(want.keys())
@@ -291,6 +351,10 @@ def populations(tier):
             out.append((c, 1))
         for c in itertools.combinations_with_replacement(small, 2):
             out.append((c, 0.5))
+    # pairs of different populations as two scenarios of one manager
+    for i, a in enumerate(small):
+        for c in small[i + 1:i + 4]:
+            out.append((((a,), (c, a, small[0])), "pair"))
     seen = set()
     uniq = []
     for c in out:
@@ -301,7 +365,13 @@ def populations(tier):
 
 
 def _work(part):
-    return [run_population(list(pop), dt) for pop, dt in part]
+    out = []
+    for pop, dt in part:
+        if dt == "pair":
+            out.append(run_pair(list(pop[0]), list(pop[1])))
+        else:
+            out.append(run_population(list(pop), dt))
+    return out
 
 
 def run(ctx):
@@ -317,6 +387,9 @@ def run(ctx):
                 if clause in seen:
                     continue
                 seen.add(clause)
+                if dt == "pair":
+                    ctx.violation("C13/%s" % clause, {"pair": [[list(a) for a in pop[0]], [list(a) for a in pop[1]]]}, detail)
+                    continue
                 never = sorted(set(["s1", "s2", "s3"]) - set(s for (p, x, y) in pop for s in PATTERNS[p]))
                 ctx.violation("C13/%s/never-populated=%s" % (clause, ",".join(never) or "-"), {"population": [list(a) for a in pop], "dt": dt}, detail)
     ctx.finish({
@@ -325,11 +398,14 @@ def run(ctx):
                 "type a plus one agent of type b; per population: Model.statistics() and every selection agents x states x properties x aggregate "
                 "types x {df, dict, json}; distinct = distinct population; every one is non-trivial (aggregates differ for >= 2 agents)",
         "selections_per_population": len(SEL_AGENTS) * len(SEL_STATES) * (1 + (len(SEL_PROPS) - 1) * len(SEL_TYPES)) * 3,
-        "samples": [{"population": [list(a) for a in p], "dt": d} for p, d in pops[:2]] + [{"population": [list(a) for a in pops[len(pops) // 2][0]], "dt": pops[len(pops) // 2][1]}],
+        "samples": [{"population": repr(p), "dt": d} for p, d in pops[:2]] + [{"population": repr(pops[len(pops) // 2][0]), "dt": pops[len(pops) // 2][1]}],
     }, assumptions=["every agent of a type carries the same property set (aggregates over agents lacking a property are not defined by the statement)",
                     "a requested state that is empty at a time (or at all times) is reported as zero"])
 
 
 def replay(case):
+    if "pair" in case:
+        viol, _ = run_pair([tuple(a) for a in case["pair"][0]], [tuple(a) for a in case["pair"][1]])
+        return viol or None
     viol, _ = run_population([tuple(a) for a in case["population"]], case["dt"])
     return viol or None
